@@ -4,7 +4,8 @@ from .runner import run_scenario
 from .util import digest
 
 BUDGET = {'quick': 60.0, 'thorough': 600.0}
-BUDGET_SCALE = {}
+BUDGET_SCALE = {'C10': 1.5, 'C03': 1.5, 'C01': 1.25, 'C04': 1.25,
+                'C14': 1.25, 'C02': 1.25, 'C12': 1.25}
 
 LEVEL = {
     'C02': 'fault_enumeration', 'C14': 'fault_enumeration',
@@ -471,6 +472,14 @@ CAMPAIGNS['C14'].append(camp(
     'pre-commit mutating call index, also followed by a root failure',
     mode='oserror-sweep', nontrivial=nt_rollback_restored, chunk=6, follow=1,
     crash_end=True, sweep_max={'quick': 12, 'thorough': None}))
+CAMPAIGNS['C10'].append(camp(
+    'c10-swaps-faults', 'C10', dict(SWAP_HEAVY, p_catch=0.95),
+    SWAP_RULE + '; mkdir / rename / rmdir failing at every index of the '
+    'last build (a directory that has to replace a stale output file, a '
+    'stale directory that has to make room for a file)',
+    mode='oserror-sweep', nontrivial=nt_rollback_restored, chunk=6, follow=1,
+    torn=False, errnos=['ENAMETOOLONG', 'ENOSPC', 'EACCES'],
+    post='tag_all:C10', sweep_max={'quick': 12, 'thorough': None}))
 WIDE_RULE = ('wide builds: one statement builds 130-260 outputs (over '
              'foreign files or previous outputs), so that more than 128 files '
              'are moved aside in one build, then the build fails and is '
